@@ -637,15 +637,24 @@ def segment_endpoints(ck, rule, only_label_numbers=False):
         raise AnalysisError("AlignmentSegment.__init__ not found")
     pos_param = V(init.call_params()[0].name)
     n = 0
+    found = []
     for pa in explore(ck, init):
         if pa.outcome not in ("fall", "return"):
             continue
         for e in pa.events:
-            if e.kind != "setattr" or e.extra.get("target") != self_attr("alignedPositions"):
-                continue
+            if e.kind == "setattr" and e.extra.get("target") == self_attr("alignedPositions"):
+                found.append((e.term, where(init, e.node), pos_param))
+    prop = seg.methods.get("alignedPositions")
+    as_property = None
+    if not found and prop is not None and prop.is_property:
+        # the filtered list computed on demand: a property over self.positions is the same list
+        for pa in explore(ck, prop):
+            if pa.outcome == "return":
+                found.append((pa.value, where(prop, pa.node), self_attr("positions")))
+                as_property = pa.value
+    if True:
+        for t, w, pos_param in found:
             n += 1
-            t = e.term
-            w = where(init, e.node)
             inner = t
             srt = None
             while inner[0] == "call" and inner[1] in ("list", "tuple", "sorted") and inner[2]:
@@ -684,7 +693,8 @@ def segment_endpoints(ck, rule, only_label_numbers=False):
                          "pair - a segment the resolver has cut can begin with an unpaired label, and the next overlap test compares a "
                          "position that has no reference / query pair", found=T.show(v)[:120], required=f"self.alignedPositions[{idx[1]}]")
             continue
-        ck.judge(v == T.mk_idx(self_attr("alignedPositions"), idx), rule, short(m), where(m, pa.node),
+        ck.judge(v == T.mk_idx(self_attr("alignedPositions"), idx) or (as_property is not None and v == T.mk_idx(as_property, idx)),
+                 rule, short(m), where(m, pa.node),
                  f"{name} is the {'first' if idx == C(0) else 'last'} aligned pair", found=T.show(v)[:120],
                  required=f"self.alignedPositions[{idx[1]}]")
     if n == 0:
@@ -784,6 +794,16 @@ def overlap_test(ck, rule="C15.6"):
             elif pa.value != C(False):
                 v = T.as_bool(pa.value)
                 parts.extend(list(v[1]) if v[0] == "or" else [v])
+    narrowed = []
+    for x in list(parts):
+        if x[0] == "and":
+            # a disjunct that is a conjunction: the overlap is reported only when all of its members hold
+            members = [(y[1], y[3][0]) if y[0] == "mcall" and y[2] == "lessOrEqualOnAnySequence" and len(y[3]) == 1 else
+                       (y[2], list(dict(y[3]).values())[0]) if y[0] == "app" and y[1].endswith(".lessOrEqualOnAnySequence") else None
+                       for y in x[1]]
+            if (T.mk_attr(other, "startPosition"), T.mk_attr(me, "endPosition")) in members:
+                narrowed.append(x)
+                parts.remove(x)
     for x in parts:
         if x[0] == "mcall" and x[2] == "lessOrEqualOnAnySequence" and len(x[3]) == 1:
             got.add((x[1], x[3][0]))
@@ -825,6 +845,13 @@ def overlap_test(ck, rule="C15.6"):
     # extra disjunct can only send a non-overlapping pair through the conflict path, where both sub-runs are empty and the
     # pair comes back unchanged - so extras are reported as an observation, never as a violation.
     necessary = (T.mk_attr(other, "startPosition"), T.mk_attr(me, "endPosition"))
+    if narrowed and necessary not in got:
+        ck.violation(rule, short(fn) + ":narrowed", w,
+                     "the overlap `other.start <= self.end` counts only together with a further condition: a later segment that lies "
+                     "inside the stretch the earlier one covers (a second-pass rest placed within the first-pass segment) fails the "
+                     "extra condition, is declared conflict-free and keeps the labels both segments pair",
+                     found=T.show(narrowed[0])[:200], required=f"{T.show(necessary[0])} <= {T.show(necessary[1])} as a disjunct of its own")
+        return
     ck.judge(necessary in got, rule, short(fn), w,
              "a conflict is detected whenever (on any sequence) the later segment starts at or before the earlier one's end",
              found="disjuncts: " + "; ".join(f"{T.show(a)} <= {T.show(b)}" for a, b in sorted(got)),
